@@ -10,7 +10,7 @@ import Httoop.Props.C11
     * `join_relative_path_eq_merge`: the split of the concatenated text is that segment list.
   Witnesses: the base must have no fragment (`base_fragment_needed_witness`); "collapse then remove
   dots" differs from "remove dots then collapse" (`readings_differ_witness`) — C11 fixes the former.
-  Open (correspondence-level): `abspath = removeDotSegments ∘ collapse` (see C11) and the case of an
+  (`abspath = removeDotSegments ∘ collapse` on rooted paths is C11's `abspath_eq_rfc`) and the case of an
   empty base path, where the `/../` trick relies on `normalize` re-adding the leading slash.
 -/
 namespace Httoop.Uri
@@ -126,11 +126,11 @@ theorem readings_differ_witness :
 
 
 /-- **the last link to RFC 3986 §5.2.4**: the path `join` computes for a relative-path reference — `abspath` of
-    base path, "/../", reference path, with the leading slash — is `remove_dot_segments` of that text with its
+    base path, "/../", reference path — is `remove_dot_segments` of that text with its
     slash runs collapsed (`abspath_eq_rfc`, C11); by `parent_trick` / `join_relative_path_eq_merge` that text and
     the RFC 5.2.3 merge have the same segment stack. -/
 theorem join_path_eq_rfc (P R : Bytes) (hP : startsWith P [0x2F] = true) :
-    normFix (abspath (P ++ [0x2F, 0x2E, 0x2E, 0x2F] ++ R)) =
+    abspath (P ++ [0x2F, 0x2E, 0x2E, 0x2F] ++ R) =
       Rfc3986.removeDotSegments (collapse (P ++ [0x2F, 0x2E, 0x2E, 0x2F] ++ R)) := by
   apply abspath_eq_rfc
   cases P with
